@@ -1,7 +1,7 @@
 (* C15 — ttlcache: executable model of /repo/ttlcache/ttlcache.go.  Definitions only.
 
    The third-party lock-free map (haxmap) is modelled as a linearizable map: an association list
-   read through [lookup] (first binding wins), [put] = update-or-insert, [remove]/[del_keys] =
+   read through [lookup] (first binding wins), [put] = update-or-insert, [del_key]/[del_keys] =
    Del(one)/Del(many), ForEach = enumeration of the bound keys.  Time is [Z] nanoseconds.
 
    Three layers:
@@ -33,10 +33,10 @@ Fixpoint lookup (k : Z) (m : kvmap) : option entry :=
   | (k', e) :: t => if k' =? k then Some e else lookup k t
   end.
 
-Definition remove (k : Z) (m : kvmap) : kvmap :=
+Definition del_key (k : Z) (m : kvmap) : kvmap :=
   filter (fun kv => negb (fst kv =? k)) m.
 
-Definition put (k : Z) (e : entry) (m : kvmap) : kvmap := (k, e) :: remove k m.
+Definition put (k : Z) (e : entry) (m : kvmap) : kvmap := (k, e) :: del_key k m.
 
 Definition keys (m : kvmap) : list Z := map fst m.
 
@@ -79,7 +79,7 @@ Definition set (maxttl : Z) (s : state) (k v ttl : Z) : option state :=
   end.
 
 Definition delete (s : state) (k : Z) : state :=
-  {| smap := remove k (smap s); snow := snow s |}.
+  {| smap := del_key k (smap s); snow := snow s |}.
 
 (* Cleanup, first half: [now := c.clock.Now(); c.m.ForEach(... if v.exp.Before(now) { keys = append(keys, k) })] *)
 Definition expired_keys (now : Z) (m : kvmap) : list Z :=
@@ -183,7 +183,7 @@ Definition cstep (maxttl : Z) (s : cstate) (e : cev) : option cstate :=
       end
   | CGet k => Some {| cm := cm s; cnow := cnow s; cpend := cpend s;
                       chist := OGet k :: chist s; clost := clost s |}
-  | CDelete k => Some {| cm := remove k (cm s); cnow := cnow s; cpend := cpend s;
+  | CDelete k => Some {| cm := del_key k (cm s); cnow := cnow s; cpend := cpend s;
                          chist := ODelete k :: chist s; clost := clost s |}
   | CReset => Some {| cm := del_keys (keys (cm s)) (cm s); cnow := cnow s; cpend := cpend s;
                       chist := OReset :: chist s; clost := clost s |}
